@@ -66,11 +66,16 @@ LABEL_POOL = [
     lab_str("+bar"), lab_str("x1"), lab_alpha(3), lab_alpha(4), lab_alpha(5), lab_alpha(6), lab_alpha(8),
     lab_alpha(9), lab_alpha(10), lab_alpha(11), lab_alpha(12), lab_alpha(13), lab_alpha(14), lab_alpha(15),
     lab_alpha(16), lab_alpha(17),
+    # label VALUES that print like another label of the pool (the enum is public, so they can be built directly):
+    # they are different labels and must stay different edges
+    lab_str("x"), lab_str("α7"), lab_str("a b"),
 ]
 
 
 def gen_data(rng, maxlen=12):
     n = rng.below(maxlen + 1)
+    if rng.chance(1, 14):
+        n = rng.pick([16, 17, 32, 64, 255, 256, 300])      # long heap data (length fields of more than one byte)
     bs = bytes(rng.below(256) for _ in range(n))
     kind = rng.below(4)
     if n <= 8 and kind != 0:
@@ -289,8 +294,11 @@ def core_history(rng, hid, n=None, cap=None, length=None, weights=None, idpool=N
             if not pres:
                 continue
             v = rng.pick(pres)
-            ops.append("PUT g %d %s" % (v, gen_data(rng)))
-            t.put(v)
+            d = gen_data(rng)
+            if t.datum.get(v) and rng.chance(1, 5):
+                d = t.datum[v]                       # the very same bytes again (after a read or as an overwrite)
+            ops.append("PUT g %d %s" % (v, d))
+            t.put(v, d)
         elif k == "data":
             if not pres:
                 continue
@@ -355,6 +363,11 @@ ADVERSARY_PREFIXES = [
     # an edge across two groups, the target's group dies, the target is added again and the very same edge is bound again
     ["ADD g 0", "ADD g 1", "ADD g 2", "ADD g 3", "BIND g 0 1 A0", "BIND g 2 3 A0", "BIND g 0 2 A1", "PUT g 3 V01", "DATA g 3",
      "ADD g 2", "BIND g 0 2 A1", "PUT g 2 V02", "DATA g 2"],
+    # zero-length data, read, collected, the id added again: data() must be None again
+    ["ADD g 1", "ADD g 2", "BIND g 1 2 A0", "PUT g 2 V", "DATA g 2", "ADD g 2", "DATA g 2", "ADD g 1", "DATA g 1"],
+    # the same long datum put again after it was read, while another member keeps the group alive
+    ["ADD g 1", "ADD g 2", "BIND g 1 2 A0", "PUT g 2 V01", "PUT g 1 V0102030405060708090a", "DATA g 1",
+     "PUT g 1 V0102030405060708090a", "DATA g 2"],
     # a re-put after a read while another member still holds unread data
     ["ADD g 1", "ADD g 2", "ADD g 3", "BIND g 1 2 A0", "BIND g 1 3 A1", "PUT g 1 V01", "PUT g 2 V02", "DATA g 1", "PUT g 1 V03", "DATA g 2"],
 ]
@@ -573,7 +586,11 @@ def fill_prefix(rng, kind, n, cap):
         for v in range(16):
             ops.append("ADD g %d" % v)
         for v in range(1, 16):
-            ops.append("BIND g %d %d %s" % (v - 1 if n > 1 else v - 1, v, lab_alpha(0)))
+            # the newcomer joins as the target or (every label slot of it being free) as the source of the bind
+            if rng.chance(1, 2):
+                ops.append("BIND g %d %d %s" % (v - 1, v, lab_alpha(0)))
+            else:
+                ops.append("BIND g %d %d %s" % (v, v - 1, lab_alpha(0)))
     elif kind == "groups":
         for g in range(14):
             ops += ["ADD g %d" % (2 * g), "ADD g %d" % (2 * g + 1),
